@@ -114,7 +114,9 @@ class DataType:
                 return self
             return DataType(self.kind, nullable=True)
 
-        vtype = type(value)
+        # Classify the value the same way inference does (bool before int,
+        # datetime before date, subclasses as their base kind)
+        vtype = infer_kind(value)
 
         # Case 2: Exact match
         if vtype is self.kind:
